@@ -167,6 +167,21 @@ Theorem C12_matrix_row_volume : forall pos m,
     = (3 * elem_vol24 ZOps pos e)%Z.
 Proof. exact matrix_row_volume. Qed.
 
+(* positions: every triple lies inside the (#cells x #facets) shape, and no position is
+   listed twice (within a row the columns are pairwise different, within a column the
+   rows are) — together with C12_matrix_row: row i marks exactly one column per face of
+   cell i.  No hypothesis on the mesh. *)
+Theorem C12_matrix_positions : forall pos m,
+  (forall t, In t (incidence pos m) ->
+     fst (fst t) < length (cells m) /\ snd (fst t) < length (facets m))
+  /\ (forall i e, nth_error (cells m) i = Some e ->
+        NoDup (map (fun t => snd (fst t)) (row_of i (incidence pos m))))
+  /\ (forall j f, nth_error (facets m) j = Some f ->
+        NoDup (map (fun t => fst (fst t)) (col_of j (incidence pos m)))).
+Proof.
+  intros pos m. split; [apply incidence_in_range |]. split; [apply row_cols_NoDup | apply col_rows_NoDup].
+Qed.
+
 (* columns: a boundary facet has the single entry +1, an interior facet exactly
    the two entries +1 and -1 *)
 Theorem C12_matrix_column : forall pos m,
@@ -233,6 +248,7 @@ Qed.
 Print Assumptions C12_div_area.
 Print Assumptions C12_matrix_row.
 Print Assumptions C12_matrix_row_volume.
+Print Assumptions C12_matrix_positions.
 Print Assumptions C12_matrix_column.
 Print Assumptions C12_column_first_owner_positive.
 Print Assumptions C12_sign_is_orientation_Z.
